@@ -1225,13 +1225,18 @@ impl Scaler for HarfBuzzScaler<'_> {
                         x *= hypot(transform[0], transform[2]);
                         y *= hypot(transform[1], transform[3]);
                     }
-                    Point::new(x, y)
-                        + self
-                            .memory
+                    let delta = if have_deltas {
+                        self.memory
                             .composite_deltas
                             .get(delta_base + i)
                             .copied()
                             .unwrap_or_default()
+                    } else {
+                        // the buffer is only written when deltas were computed;
+                        // caller supplied memory is not zeroed
+                        Default::default()
+                    };
+                    Point::new(x, y) + delta
                 }
                 Anchor::Point { base, component } => {
                     let (base_offset, component_offset) = (base as usize, component as usize);
